@@ -381,6 +381,24 @@ class MAlloc(Model):
     return [(B.true(), "ok", nx, {self.v("next"): B.add(nx, B.const(1))})]
 
 
+class MCounter(Model):
+  """itertools.count(): next() returns the current number and advances, as one indivisible step (a C call under the interpreter lock)"""
+  cls = "counter"
+
+  def __init__(self, name, first=0):
+    super().__init__(name)
+    self.first = first
+
+  def init(self):
+    return {self.v("n"): self.first}
+
+  def apply(self, B, st, op, args, tid):
+    n = st[self.v("n")]
+    if op == "take":          # ("next" is the name of the read-only step of an iterator)
+      return [(B.true(), "ok", n, {self.v("n"): B.add(n, B.const(1))})]
+    raise NotImplementedError("count.%s" % op)
+
+
 class MLists(Model):
   """a pool of python lists created at run time (the values of a dict of lists): list number 1..n, each with up to `cells` elements.
   new(x) takes the next free list and initialises it with [x]; the other operations take the list number as their first argument.
